@@ -9274,6 +9274,20 @@ class TensorDictBase(MutableMapping):
             fn, self_split = wrap_fn_with_out(fn, out)
             out = None
 
+        chunk_lengths = None
+        if out is not None and not iterable:
+            # The results are written in ``out`` with a running offset: we record the
+            # length of each chunk along ``dim`` when it is dispatched, such that the
+            # offset stays aligned with the chunks when ``fn`` returns ``None`` for some of them.
+            chunk_lengths = []
+
+            def _record_lengths(split, lengths=chunk_lengths):
+                for item in split:
+                    lengths.append(1 if chunksize == 0 else item.shape[dim])
+                    yield item
+
+            self_split = _record_lengths(self_split)
+
         imap_fn = pool.imap if not shuffle else pool.imap_unordered
         imap = imap_fn(fn, self_split, call_chunksize)
 
@@ -9288,7 +9302,7 @@ class TensorDictBase(MutableMapping):
             imaplist = []
             start = 0
             base_index = (slice(None),) * dim
-            for item in imap:
+            for i, item in enumerate(imap):
                 if item is not None:
                     if out is not None:
                         if chunksize == 0:
@@ -9301,6 +9315,9 @@ class TensorDictBase(MutableMapping):
                             start = end
                     else:
                         imaplist.append(item)
+                elif out is not None:
+                    # nothing to write for this chunk: its rows are left untouched
+                    start += chunk_lengths[i]
             del imap
 
             # support inplace modif
